@@ -2,7 +2,8 @@
 from plib import *
 from props.vcommon import *
 
-LEAN_TARGETS = ["Plonk.Props.C03", "Plonk.Props.WidgetTie"]
+LEAN_TARGETS = ["Plonk.Props.C03", "Plonk.Props.WidgetTie", "Plonk.Props.G1Law"]
+EXTRA_AUDITS = ['G1Law']
 ASSUMPTIONS = ["pairing decided in the trapdoor view (bilinearity/non-degeneracy assumed; x known because the SRS RNG is scripted)",
                "Keccak/STROBE sponge treated as a random oracle: different framed operation lists give unrelated challenges"]
 TRUSTED = ["dusk-bls12_381 / merlin (re-implemented in the Lean model and compared on every request)"]
@@ -22,12 +23,14 @@ def run(ctx, broken):
         entries.append("%s %s || %s" % (mode, lab, src))
     budget = 150 if ctx.tier == "quick" else 8064
     lines = r.emit("emitv", entries, ctx.seed, budget)
+    lines += shifted_openings(ctx, lines)
     r.run(lines)
     st = r.report()
     st["rule"] = ("honest V3 proofs of %d circuits (arithmetic with public inputs, near-miss variants, gadgets, curve points, full "
                   "domain); per proof: %d single-bit flips of the 1008 proof bytes (all 8064 in thorough), every commitment "
                   "replaced by generator / identity / another commitment, every evaluation by 0 / 1 / another evaluation, the "
-                  "all-identity all-zero proof, field-wise splices, every proof against every other circuit's verifier. Real "
+                  "all-identity all-zero proof, field-wise splices, every proof against every other circuit's verifier; opening commitments shifted by "
+                  "multiples of G chosen with the batching challenge u (accepted only if u does not bind them). Real "
                   "verifier decision vs the Lean model verifier (Merlin transcript recomputed from bytes, regrouped MSM, "
                   "trapdoor pairing); accepted proofs re-checked against the textbook equation." % (len(cs), budget))
     return st
